@@ -364,6 +364,14 @@ func (g *G) addDependent(bs *schema.BlockSchema, depth int) {
 		}
 		body := g.Body(depth, false)
 		body.AnyAttribute = nil
+		// nested blocks of dependent bodies often carry their own extensions (the
+		// decoder propagates DynamicBlocks into copies of them)
+		for _, bn := range sortedBlockNames(body.Blocks) {
+			nb := body.Blocks[bn]
+			if nb.Body != nil && nb.Body.Extensions == nil && g.coin(0.5) {
+				nb.Body.Extensions = &schema.BodyExtensions{Count: g.coin(0.5), SelfRefs: g.coin(0.5)}
+			}
+		}
 		if body.Attributes == nil {
 			body.Attributes = map[string]*schema.AttributeSchema{}
 		}
